@@ -33,6 +33,9 @@ func C06(c *mc.Ctx) {
 	// hub, where no timeout runs
 	runIC(c, "C06", c06Oracle, fix.Options{}, "icmc-inter-hub",
 		[]string{"empty", "req:pr:n:1", "req:pr:n:2", "rc:pr:n:s", "rc:pr:n:f", "req:ph:n:2", "rc:ph:n:s", "req:p1:n:2", "req:pr:n:2+req:p1:n:2", "rc:pr:n:s+rc:pr:n:s"}, depth-1)
+	// requests of two source chains expiring in the same block (each chain is handed its own list)
+	runIC(c, "C06", c06Oracle, fix.Options{}, "icmc-two-source-chains",
+		[]string{"req:p1:n:2+req:p3:n:2", "req:p1:n:1", "req:p3:n:1", "req:p3:n:2", "empty", "rc:p1:n:s"}, depth-1)
 	runIC(c, "C06", c06Oracle, fix.Options{}, "icmc", alphabet, depth)
 	fix.Cleanup()
 	c.Set("rule", "BFS over block histories of requests with timeout T in {0,1,2,3,huge,-1} (several sharing an expiry height, begin-failed ones), receipts before / in / after the expiry block, empty blocks and reopen between H and H+T; after every block the block's timeout notifications and every transaction status are compared with the reference model (expiry E=H+T, listed once for the source chain iff still BEGIN at the end of block E); a further BFS on a world with a remote BitXHub: requests from the remote hub to a local service (timeout runs here, announced through the union pier) and from a local service to the remote hub (no timeout on the source hub)")
